@@ -8,7 +8,7 @@
    "the (pre-)master secret is not derivable" are the (EC)DHE / PSK secrecy assumptions. *)
 From Coq Require Import List NArith Bool.
 From DtlsV Require Import Lib.Bytes Rec.Window Rec.Recv Rec.RecvSound Rec.C07RecvSound Rec.C07Emit Rec.C07EmitSound
-  Sym.C07Derive Sym.C07DeriveSound.
+  Sym.C07Derive Sym.C07DeriveSound Sym.C07Life Sym.C07LifeSound.
 Import ListNotations.
 Open Scope N_scope.
 
@@ -184,3 +184,61 @@ Print Assumptions C07_resumed_guard_needed.
 Example C07_example_exporter :
   ~ derives K0 (exporter12 (ms12 (TSec 1) (TPub 10) (TPub 11)) (TPub 5) (TPub 10) (TPub 11)).
 Proof. exact K0_exporter12_underivable. Qed.
+
+(* ---- the exporter over the whole lifecycle of the API (Sym/C07Life.v): live, State held across Close, State
+   taken from the closed Conn, Marshal/Unmarshal copies, Resume - every value handed out is the exporter term
+   keyed with the session secret (never a public constant) ... *)
+Theorem C07_export_keyed_by_session_secret :
+  forall (c : cfg) (s : term) (ops : list lop) (out : term),
+    c_wipe c = false -> In out (lrun c s winit ops) -> exists label, out = exp_term c s label.
+Proof. exact export_keyed_by_session_secret. Qed.
+Print Assumptions C07_export_keyed_by_session_secret.
+
+(* ... hence equal to the live export for the same label ... *)
+Theorem C07_export_equals_live :
+  forall (c : cfg) (s : term) (ops : list lop) (out1 out2 : term),
+    c_wipe c = false -> In out1 (lrun c s winit ops) -> In out2 (lrun c s winit ops) ->
+    exists l1 l2, out1 = exp_term c s l1 /\ out2 = exp_term c s l2 /\ (l1 = l2 -> out1 = out2).
+Proof. exact export_equals_live. Qed.
+Print Assumptions C07_export_equals_live.
+
+(* ... and not derivable by an attacker who cannot derive the session secret (Dolev-Yao premises as above) *)
+Theorem C07_export_lifecycle_secret :
+  forall (K : term -> Prop) (c : cfg) (s : term) (ops : list lop) (out : term),
+    c_wipe c = false ->
+    ~ derives K s ->
+    (forall k l x, (k = s \/ exists label, k = derive_secret s label (THash empty)) -> ~ ana K (TPrf k l x)) ->
+    In out (lrun c s winit ops) ->
+    ~ derives K out.
+Proof. exact export_lifecycle_secret. Qed.
+Print Assumptions C07_export_lifecycle_secret.
+
+(* variant in which Close overwrites the secret in place with a constant while export stays enabled: a State
+   taken from the closed Conn exports a value everybody computes (DTLS 1.2 and 1.3) *)
+Theorem C07_export_after_wiping_close_refuted :
+  forall (K : term -> Prop) (c : cfg) (s label : term),
+    c_wipe c = true -> s <> empty ->
+    derives K label -> derives K (c_cr c) -> derives K (c_sr c) ->
+    exists ops out, In out (lrun c s winit ops) /\ out = exp_term c zeros label /\ derives K out.
+Proof. exact export_after_wiping_close_refuted. Qed.
+Print Assumptions C07_export_after_wiping_close_refuted.
+
+(* same variant, a State that shares the connection's bytes (DTLS 1.2 generateState): the SAME State exports the
+   secret-keyed value while open and the public one after Close *)
+Theorem C07_export_held_across_wiping_close_refuted :
+  forall (K : term -> Prop) (c : cfg) (s label : term),
+    c_wipe c = true -> c_share c = true -> s <> empty ->
+    derives K label -> derives K (c_cr c) -> derives K (c_sr c) ->
+    exists ops out1 out2,
+      lrun c s winit ops = [out1; out2] /\ out1 = exp_term c s label /\ out2 = exp_term c zeros label /\ derives K out2.
+Proof. exact export_held_across_wiping_close_refuted. Qed.
+Print Assumptions C07_export_held_across_wiping_close_refuted.
+
+Example C07_example_export_lifecycle :
+  lrun (mkCfg false true false (TPub 10) (TPub 11)) (TSec 1) winit
+       [LTake; LExport 0 (TPub 5); LEstablish; LTake; LExport 1 (TPub 5); LCopy 1; LClose; LExport 1 (TPub 5);
+        LTake; LExport 3 (TPub 5); LResume 2; LExport 4 (TPub 6); LExport 0 (TPub 5)]
+  = [exporter12 (TSec 1) (TPub 5) (TPub 10) (TPub 11); exporter12 (TSec 1) (TPub 5) (TPub 10) (TPub 11);
+     exporter12 (TSec 1) (TPub 5) (TPub 10) (TPub 11); exporter12 (TSec 1) (TPub 6) (TPub 10) (TPub 11);
+     exporter12 (TSec 1) (TPub 5) (TPub 10) (TPub 11)].
+Proof. exact lifecycle_example_12. Qed.
